@@ -3,6 +3,7 @@
   prints result lines in the canonical format (see Proto.lean). Compiled as `m4ri_model`.
 -/
 import M4ri.Ops
+import M4ri.Alloc
 open M4ri
 
 partial def loop (h : IO.FS.Stream) (out : IO.FS.Stream) : IO Unit := do
@@ -18,6 +19,17 @@ partial def loop (h : IO.FS.Stream) (out : IO.FS.Stream) : IO Unit := do
     else
       let id := toks[0]!
       let op := toks[1]!
+      if op == "alloc_seq" then
+        -- alloc_seq <nblocks> <cacheMax> <threshold> op.. ; ops i.r.c w.p.lr.lc.hr.hc f.h c
+        let nb := toks[2]!.toNat?.getD 16
+        let cm := toks[3]!.toNat?.getD 16
+        let th := toks[4]!.toNat?.getD 0
+        let script := ";".intercalate ((toks.toList.drop 5).map fun t => t.replace "." " ")
+        match Alloc.runScript nb cm th script with
+        | some lines =>
+          out.putStrLn s!"{id} ok t {"|".intercalate (lines.map fun l => l.replace " " "_")} i 0"
+        | none => out.putStrLn s!"{id} bad-script"
+      else
       match parseArgs toks 2 #[] with
       | none => out.putStrLn s!"{id} bad-args"
       | some args =>
